@@ -23,9 +23,15 @@ func (v *hasSideEffectVisitor) Visit(node ast.Node) (w ast.Visitor) {
 	}
 	switch n := node.(type) {
 	case *ast.CallExpr:
-		if _, isSig := v.info.TypeOf(n.Fun).(*types.Signature); isSig { // skip conversions
-			v.hasSideEffect = true
-			return nil
+		if tv, ok := v.info.Types[n.Fun]; ok && tv.IsType() {
+			break // a conversion, only its operand matters
+		}
+		if t := v.info.TypeOf(n.Fun); t != nil {
+			// the called value may have a named function type
+			if _, isSig := t.Underlying().(*types.Signature); isSig {
+				v.hasSideEffect = true
+				return nil
+			}
 		}
 	case *ast.UnaryExpr:
 		if n.Op == token.ARROW {
